@@ -176,6 +176,9 @@ CORPUS = {
         Q_RENAME_WEIGHT, Q_ERRMSG,
     ],
     'C06': [
+        ('commit-has-one-slot-too-few', 'fire', [('src/generators/pedersen_gens.rs', '''            let scalars = once(value).chain(blindings);
+            let g_base_head = self.g_base_vec.iter().take(blindings.len());''', '''            let scalars = once(value).chain(blindings.iter().take(ExtensionDegree::COUNT - 1));
+            let g_base_head = self.g_base_vec.iter().take(blindings.len().min(ExtensionDegree::COUNT - 1));''')], 'R-C06-5'),
         ('witness-degrees-compared-in-disjoint-pairs', 'fire', [('src/range_witness.rs', '''        for item in openings.iter().skip(1) {
             if extension_degree != item.r_len()? {''', '''        for item in openings.chunks_exact(2) {
             if item[0].r_len()? != item[1].r_len()? {''')], 'R-C06-4'),
@@ -315,6 +318,16 @@ pub struct RangeStatement<P: Compressable + Precomputable> {''')], 'R-C07-5'),
         Q_ERRMSG,
     ],
     'C16': [
+        ('visitor-presizes-from-the-declared-length', 'fire', [(RP, '''            fn visit_bytes<E>(self, v: &[u8]) -> Result<RangeProof<T>, E>''', '''            fn visit_seq<A>(self, mut seq: A) -> Result<RangeProof<T>, A::Error>
+            where A: serde::de::SeqAccess<'de> {
+                let mut bytes = Vec::with_capacity(seq.size_hint().unwrap_or(0));
+                while let Some(byte) = seq.next_element::<u8>()? {
+                    bytes.push(byte);
+                }
+                RangeProof::from_bytes(&bytes).map_err(|_| serde::de::Error::custom("deserialization error"))
+            }
+
+            fn visit_bytes<E>(self, v: &[u8]) -> Result<RangeProof<T>, E>''')], 'R-C16-4'),
         ('unchecked-index-in-s-vector', 'fire', [(RP, 's.get(i - j).ok_or(ProofError::SizeOverflow)? *', 's[i - j] *')], 'R-C16-1'),
         ('drop-L-R-length-guard', 'fire', [(RP, '''            if li.len() != ri.len() {
                 return Err(ProofError::InvalidLength(
@@ -354,6 +367,23 @@ pub struct RangeStatement<P: Compressable + Precomputable> {''')], 'R-C07-5'),
         Q_ERRMSG, Q_RENAME_WEIGHT,
     ],
     'C19': [
+        ('commitments-and-promises-interleaved', 'fire', [(TR, '''        for item in &statement.commitments_compressed {
+            transcript.append_point(b"Ci", item);
+        }
+        for item in &statement.minimum_value_promises {
+            if let Some(minimum_value) = item {
+                transcript.append_u64(b"vi - minimum_value", *minimum_value);
+            } else {
+                transcript.append_u64(b"vi - minimum_value", 0);
+            }
+        }''', '''        for (commitment, item) in statement.commitments_compressed.iter().zip(&statement.minimum_value_promises) {
+            transcript.append_point(b"Ci", commitment);
+            if let Some(minimum_value) = item {
+                transcript.append_u64(b"vi - minimum_value", *minimum_value);
+            } else {
+                transcript.append_u64(b"vi - minimum_value", 0);
+            }
+        }''')], 'R-C19-1'),
         ('j-label-uppercase', 'fire', [(GEN, 'key.append(&mut b"j".to_vec()); // Domain separated index label (1 byte)', 'key.append(&mut b"J".to_vec()); // Domain separated index label (1 byte)')], 'R-C19-2'),
         ('swap-T-M-order', 'fire', [(TR, '''        transcript.append_u64(b"T", extension_degree as u64);
         transcript.append_u64(b"M", aggregation_factor as u64);''', '''        transcript.append_u64(b"M", aggregation_factor as u64);
